@@ -323,6 +323,10 @@ func errForwarders(s ssa.CallInstruction) map[ssa.Instruction]bool {
 	return out
 }
 
+// calleeResolver resolves dynamic first-party calls (closures held in variables) through the value-flow
+// graph of the running check; set by resolveFieldAnchors.
+var calleeResolver func(ssa.CallInstruction) []*ssa.Function
+
 // valueForwarders adds to out the instructions that hand value v on (see errForwarders). Passing v to a
 // statically resolved first-party helper counts when the helper hands its parameter on along every
 // path to its return (e.g. a non-blocking send wrapped in a function).
@@ -360,7 +364,14 @@ func valueForwarders(v0 ssa.Value, out map[ssa.Instruction]bool, depth int) {
 				if n := engine.CalleeName(x); n == "fmt.Errorf" || n == "errors.Join" {
 					walk(x, d+1)
 				}
-				if h := x.Call.StaticCallee(); h != nil && len(h.Blocks) > 0 && depth < 3 {
+				h := x.Call.StaticCallee()
+				if h == nil && calleeResolver != nil {
+					// a closure kept in a local variable and called from a nested literal
+					if cs := calleeResolver(x); len(cs) == 1 {
+						h = cs[0]
+					}
+				}
+				if h != nil && len(h.Blocks) > 0 && depth < 3 {
 					for i, a := range x.Call.Args {
 						if a != v || i >= len(h.Params) {
 							continue
